@@ -102,6 +102,35 @@ def quiescentCheckOk (np workers : Nat) (v : View) : Bool :=
   (v.working || (v.active == 0 && v.stops == 0)) &&
   (!v.working || (v.active == workers && v.stops == workers))
 
+/-- what the scheduler invariant says about every quiescent observation: a stopped scheduler has
+    no running worker and keeps no cancel function; the running workers are exactly the kept
+    cancel functions. -/
+def viewInvOk (v : View) : Bool :=
+  (v.working || (v.active == 0 && v.stops == 0)) && v.active == v.stops
+
+/-- check steps until no check is in flight (at least one step). -/
+def finishChk : Nat → St → St
+  | 0, s => s
+  | k + 1, s =>
+    let s' := chkStep s
+    if s'.chk = .idle then s' else finishChk k s'
+
+/-- check steps until the check is about to poll the last protocol, or has finished. -/
+def chkToLastPoll : Nat → St → St
+  | 0, s => s
+  | k + 1, s =>
+    let s' := chkStep s
+    if s'.chk = .idle ∨ s'.chk = .reading (s.counters.length - 1) then s' else chkToLastPoll k s'
+
+/-- the `O` scenario under `protocolsMutex`: check A runs up to its poll of the last protocol,
+    latch 0 is locked, A completes, then check B runs (it had to wait for A). -/
+def overlapRun (s : St) : St :=
+  let fuel := s.counters.length + 3
+  let s1 := chkToLastPoll fuel s
+  let s2 := step s1 (.lock 0)
+  let s3 := if s2.chk = .idle then s2 else finishChk fuel s2
+  finishChk fuel s3
+
 /-! ## concurrent groups: every interleaving of the atomic steps -/
 
 inductive Act where
